@@ -191,6 +191,33 @@ func main(a, b [2]byte) ([]byte, uint8, bool) {
 	return []byte(s), uint8(aes.BlockSize) + b[0], bytes.Equal(a[:], b[:])
 }
 `},
+		// two packages called util (vapp/util, vlib/util) reached through different importers: which
+		// one a name means must not depend on the order in which the imports happen to be visited
+		stream.Program{Name: "crafted/two packages with the same last path component (vapp/util directly, vlib/util through vhelp)", Src: `package main
+
+import (
+	"vapp/util"
+	"vhelp"
+)
+
+func main(a, b uint8) (uint8, uint8) {
+	return util.Mix(a), vhelp.Help(b)
+}
+`},
+		stream.Program{Name: "crafted/two packages with the same last path component (through vhelp and vhelp2, hex and bytes beside them)", Src: `package main
+
+import (
+	"bytes"
+	"encoding/hex"
+	"vhelp"
+	"vhelp2"
+)
+
+func main(a, b [2]byte) (uint8, uint8, bool, []byte) {
+	s := hex.EncodeToString(a[:])
+	return vhelp.Help(a[0]), vhelp2.Help(b[1]), bytes.Equal(a[:], b[:]), []byte(s)
+}
+`},
 		// multiplications in several width classes of the per-width algorithm selection (16..21 and
 		// 37..41 bits have thresholds of their own): whatever one compilation resolves must not be
 		// what the next one, on the same Params value, starts from
